@@ -34,6 +34,9 @@ def d1(cx: Cx, ob: Ob) -> None:
             for g in ctx.guards:
                 if g.kind == "guard" and ((g.a == convs and g.b is False) or (op(g.a) == "cmp" and any(x == convs for x in subterms(g.a)))):
                     ok = True
+                # the emptiness test on a copy of the sequence from which only non-converters (None) were dropped
+                if g.kind == "guard" and g.b is False and op(g.a) in ("comp", "new", "call") and any(x == convs for x in subterms(g.a)):
+                    ok = True
     if not ok:
         ob.violate(fn.qualname, fn.where, "chain does not raise ValueError on an empty sequence of converters", detail="empty")
     adds = [(c, ev, ctx) for c, ev, ctx in s.calls("add_record")]
@@ -84,6 +87,26 @@ def d1(cx: Cx, ob: Ob) -> None:
         # full-slice / list() snapshots iterate the same elements in the same order
         outer = type(outer)(outer.kind, outer.line, outer.a, _strip_views(outer.b), outer.c, outer.body, outer.cov) if _strip_views(outer.b) != outer.b else outer
         inner = type(inner)(inner.kind, inner.line, inner.a, _strip_views(inner.b), inner.c, inner.body, inner.cov) if _strip_views(inner.b) != inner.b else inner
+        ob_ = outer.b
+        if op(ob_) == "new" and len(ob_) > 4:
+            ob_ = ob_[4]
+        if op(ob_) == "comp" and ob_[1] in ("list", "gen") and len(ob_[3]) == 1 and ob_[2] == ob_[3][0][0] and ob_[3][0][1] == convs and all(op(c_) == "cmp" and c_[1] in ("is not", "!=") and c_[2] == ob_[2] and is_const(c_[3], None) for c_ in ob_[3][0][2]):
+            # the same sequence with the entries that are not converters (None) left out
+            outer = type(outer)(outer.kind, outer.line, outer.a, convs, outer.c, outer.body, outer.cov)
+        if op(ob_) == "comp" and ob_[1] in ("list", "gen") and len(ob_[3]) == 1 and ob_[2] == ob_[3][0][0] and ob_[3][0][1] == convs and ob_[3][0][2] == (ob_[2],):
+            # filtered by the truth value of each converter: every converter is true - unless the class defines
+            # __len__ / __bool__, in which case a converter without records is dropped
+            cc = cx.model.cls(CONV, ob.id)
+            falsy = [d_ for d_ in ("__bool__", "__len__") if cx.model.find_method(cc, d_) is not None]
+            if falsy:
+                ob.violate(
+                    fn.qualname,
+                    where(fn, outer.line),
+                    f"chain keeps only the converters that are true, and Converter defines {falsy[0]}: a converter without records is left out - chain([Converter([])]) finds nothing to chain and raises, and a leading empty converter no longer decides the delimiter",
+                    witness="chain([Converter([])]) raises ValueError instead of returning an empty converter",
+                    detail="subset",
+                )
+            outer = type(outer)(outer.kind, outer.line, outer.a, convs, outer.c, outer.body, outer.cov)
         if outer.b != convs:
             if any(callee_name(x) in ("reversed", "sorted") for x in subterms(outer.b) if op(x) == "call"):
                 ob.violate(fn.qualname, where(fn, outer.line), f"chain iterates `{show(outer.b)[:50]}`: priority must follow the given order (earlier converters win)", detail="order")
